@@ -6,7 +6,7 @@ from oracle_util import *  # noqa
 from protocol import from_real, pm
 
 ID = "C12"
-LEAN_MODULE = ["SCoda.Props.C13", "SCoda.Props.C12", "SCoda.Props.C12b"]
+LEAN_MODULE = ["SCoda.Props.C13", "SCoda.Props.C12", "SCoda.Props.C12b", "SCoda.Props.C13b"]
 CLAUSES = [
     ("one sequence per saved sequence, in the same order", ["SCoda.C13.one_per_group"]),
     ("save: summing the delta times of the written track puts every emitted event back on its original tick, in order, with pitch and velocity kept "
@@ -21,6 +21,12 @@ CLAUSES = [
      "is saved there — for signature messages that carry their own fields only and no two saved signatures of a kind on one tick "
      "(without the field hypothesis the statement is false of the model: `save_load_signatures_statement_false`, a time signature carrying a key)",
      ["SCoda.C13.save_load_note_ons", "SCoda.C13.save_load_signatures_partial", "SCoda.C13.save_load_signatures_statement_false"]),
+    ("NOTES, not only sounding sets (audit A8): the notes (pitch, onset, duration, velocity) of loaded sequence i are a permutation of the notes of saved sequence i with "
+     "the channel set to 0, for single-channel sequences with notes of positive length; dropping those two hypotheses is refuted (cross-channel same pitch: known finding "
+     "D21; a zero-length note swallows the next note of its pitch: D17's mechanism, booked for C12 as D17b); the round trip always succeeds for a non-empty list and raises "
+     "ValueError for an empty one; signatures in force without any tick-distinctness hypothesis (two sequences that both start with 4/4 at tick 0 are covered)",
+     ["SCoda.C13b.save_load_notes", "SCoda.C13b.save_load_notes_statement_false", "SCoda.C13b.save_load_succeeds", "SCoda.C13b.save_load_empty",
+      "SCoda.C13b.save_load_time_signature_in_force", "SCoda.C13b.save_load_key_signature_in_force", "SCoda.C13b.key_table_round_trip", "SCoda.C13b.saved_key_parses"]),
 ]
 RULE = ("lists of 1-3 integer-tick well-formed single-channel sequences (<=6 notes, velocities 1..127, all 15 keys, "
         "signatures at arbitrary ticks on distinct ticks, leading rests); real file round trip through mido in a temp dir; "
@@ -53,7 +59,7 @@ def o_save_load(inp):
     rels = [[tuple(m) for m in r] for r in inp["rels"]]
     for r in rels:
         tr, _ = rel_timed(r)
-        if wf_violations(tr) or any(on >= off for (_, _, on, off, _) in notes_of(tr)) \
+        if wf_violations(tr) or any(on > off for (_, _, on, off, _) in notes_of(tr)) \
                 or any(m[TY] == ON and not (1 <= (m[VEL] or 0) <= 127) for m in r):
             return [("~skip:outside-domain", "")]
     seqs = [P.seq_of_rel(r) for r in rels]
@@ -100,6 +106,18 @@ def o_save_load(inp):
     return fails
 
 
+def zero_length_saved(rels):
+    for r in rels:
+        tr, _ = rel_timed(r)
+        if any(on == off for (_, _, on, off, _) in notes_of(tr)):
+            return True
+    return False
+
+
+D17B_EXAMPLE = {"rels": [[pm(ON, 0, None, note=60, vel=64), pm(OFF, 0, None, note=60), pm(WAIT, 0, 10), pm(ON, 0, None, note=60, vel=64),
+                          pm(WAIT, 0, 10), pm(OFF, 0, None, note=60), pm(WAIT, 0, 4)]]}
+
+
 def setup(ctx):
     global SCRATCH
     SCRATCH = ctx.scratch
@@ -109,10 +127,16 @@ def setup(ctx):
         return f["clause"] == "notes" and cross_channel_overlap([[tuple(m) for m in r] for r in f["input"]["rels"]])
     ctx.kf_predicates["D21"] = kf_d21
 
+    def kf_d17b(f):
+        # a saved sequence holds a zero-length note (note-on and note-off on one tick)
+        return f["clause"] == "notes" and zero_length_saved([[tuple(m) for m in r] for r in f["input"]["rels"]])
+    ctx.kf_predicates["D17b"] = kf_d17b
+
 
 def generate(ctx):
     rng = ctx.rng
     ctx.check("save_load", D21_EXAMPLE)         # the recorded instance of the known finding
+    ctx.check("save_load", D17B_EXAMPLE)        # zero-length note followed by a real note of the same pitch
     for i in range(ctx.n(120, 2500)):
         k = rng.choice([1, 2, 3])
         rels = []
